@@ -436,6 +436,119 @@ theorem passes_len_aux {α : Type} [Add α] [Sub α] [Mul α] [Div α] [Neg α] 
       simp only [List.length_cons]; omega
     · rw [genPasses_ge ritz hi i (by omega)]; simp
 
+/-! ### storage of the operator buffers: closed facts about the regenerated table (`decide`), then lifted to every call of every run -/
+
+/- the four (x, y) shapes the skeleton can produce, per family: backed by a call site, and every backing site hands owned storage -/
+theorem owned_init0 : OwnedShape .herm ("param", "init_resid") ("member", "m_fac_V") ∧ OwnedShape .gen ("param", "init_resid") ("member", "m_fac_V") := by decide
+theorem owned_vw : OwnedShape .herm ("member", "m_fac_V") ("local", "w") ∧ OwnedShape .gen ("member", "m_fac_V") ("local", "w") := by decide
+theorem owned_tf : OwnedShape .herm ("local", "v") ("member", "m_fac_f") ∧ OwnedShape .gen ("local", "v") ("member", "m_fac_f") := by decide
+theorem owned_probe : OwnedShape .cshift ("local", "v_real") ("local", "OPv_real") ∧ OwnedShape .cshift ("local", "v_imag") ("local", "OPv_imag") := by decide
+theorem sites_owned : ∀ s ∈ opSites, siteOwned s = true := by decide
+
+/-- every call of a factorization is `w = A·V(:,i)` or (breakdown branch) `f = A·v` with expand_basis' fresh random vector -/
+theorem factorizeCalls_shape (bd : Int → Bool) (a b : Int) :
+    ∀ c ∈ factorizeCalls bd a b, c = ⟨.tmp, .f⟩ ∨ ∃ i, c = ⟨.vcol i, .w⟩ := by
+  intro c hc
+  simp only [factorizeCalls, List.mem_flatMap] at hc
+  obtain ⟨i, _, hc⟩ := hc
+  simp only [stepCalls, List.mem_append, List.mem_singleton] at hc
+  rcases hc with hc | hc
+  · split at hc
+    · simp only [List.mem_singleton] at hc; exact Or.inl hc
+    · exact absurd hc (by simp)
+  · exact Or.inr ⟨i, hc⟩
+
+theorem factorizeCalls_owned (fam : Fam) (hf : fam = .herm ∨ fam = .gen) (bd : Int → Bool) (a b : Int) :
+    ∀ c ∈ factorizeCalls bd a b, Call.owned fam c := by
+  intro c hc
+  rcases factorizeCalls_shape bd a b c hc with rfl | ⟨i, rfl⟩
+  · rcases hf with rfl | rfl
+    · exact owned_tf.1
+    · exact owned_tf.2
+  · rcases hf with rfl | rfl
+    · exact owned_vw.1
+    · exact owned_vw.2
+
+theorem initCalls_owned (fam : Fam) (hf : fam = .herm ∨ fam = .gen) : ∀ c ∈ initCalls, Call.owned fam c := by
+  intro c hc
+  simp only [initCalls, List.mem_cons, List.not_mem_nil, or_false] at hc
+  rcases hc with rfl | rfl
+  · rcases hf with rfl | rfl
+    · exact owned_init0.1
+    · exact owned_init0.2
+  · rcases hf with rfl | rfl
+    · exact owned_vw.1
+    · exact owned_vw.2
+
+theorem hermRestartCalls_all (P : Call → Prop) (ncv k : Int) (bd : Int → Bool)
+    (hP : ∀ a b, ∀ c ∈ factorizeCalls bd a b, P c) : ∀ c ∈ (hermRestartCalls ncv k bd).1, P c := by
+  intro c hc
+  simp only [hermRestartCalls] at hc
+  split at hc
+  · exact absurd hc (by simp)
+  · split at hc
+    · exact absurd hc (by simp)
+    · exact hP _ _ c hc
+
+section
+variable {α : Type} [Add α] [Sub α] [Mul α] [Div α] [Neg α] [Sc α]
+theorem genRestartCalls_all (P : Call → Prop) (ncv k : Int) (val : Int → α × α) (bd : Int → Bool)
+    (hP : ∀ a b, ∀ c ∈ factorizeCalls bd a b, P c) : ∀ c ∈ (genRestartCalls ncv k val bd).1, P c := by
+  intro c hc
+  simp only [genRestartCalls] at hc
+  split at hc
+  · exact absurd hc (by simp)
+  · split at hc
+    · exact absurd hc (by simp)
+    · split at hc
+      · exact absurd hc (by simp)
+      · exact hP _ _ c hc
+end
+
+/-- loop lemma without a count: a property of every call of every restart holds for every call of the loop -/
+theorem computeLoop_all {O : Type} (brk : O → Bool) (kOf : O → Int) (restartOf : O → Int → List Call × Stop) (orc : Nat → O)
+    (P : Call → Prop) (hP : ∀ it, ∀ c ∈ (restartOf (orc it) (kOf (orc it))).1, P c) :
+    ∀ (r it : Nat), ∀ c ∈ (computeLoop brk kOf restartOf orc r it).calls, P c := by
+  intro r
+  induction r with
+  | zero => intro it; simp [computeLoop]
+  | succ r ih =>
+    intro it
+    simp only [computeLoop]
+    cases hb : brk (orc it)
+    · simp only [Bool.false_eq_true, if_false]
+      split
+      · dsimp only; exact hP it
+      · dsimp only
+        intro c hc; rcases List.mem_append.mp hc with hc | hc
+        · exact hP it c hc
+        · exact ih (it + 1) c hc
+    · simp
+
+theorem cshift_shape (nev : Int) (cplx : Int → Bool) (n : Nat) :
+    ∀ i : Int, (nev - i).toNat = n → ∀ c ∈ (cshiftLoop nev cplx i).1, c = ⟨.probeIn 0, .probeOut 0⟩ ∨ c = ⟨.probeIn 1, .probeOut 1⟩ := by
+  induction n using Nat.strongRecOn with
+  | ind n ih =>
+    intro i hn
+    rw [cshiftLoop]
+    by_cases hlt : i < nev
+    · simp only [hlt, if_true]
+      cases hc : cplx i
+      · have := ih (nev - (i + 1)).toNat (by omega) (i + 1) rfl
+        simp only [Bool.false_eq_true, if_false, List.mem_append, List.mem_cons, List.not_mem_nil, or_false]
+        rintro c ((rfl | rfl) | hw)
+        · exact Or.inl rfl
+        · exact Or.inr rfl
+        · exact this c hw
+      · have := ih (nev - (i + 2)).toNat (by omega) (i + 2) rfl
+        simp only [if_true, List.mem_append, List.mem_cons, List.not_mem_nil, or_false]
+        rintro c ((rfl | rfl) | hw)
+        · exact Or.inl rfl
+        · exact Or.inr rfl
+        · exact this c hw
+    · simp [hlt]
+
+
 /-- a tiny exact scalar type for concrete witnesses: Gaussian integers as pairs of `Int` -/
 @[reducible] def scInt : Sc Int where
   abs := fun x => (x.natAbs : Int)
